@@ -6,7 +6,7 @@ pub use vcore::ctx::{guard, Ctx, Tier};
 pub use vcore::model::{boundary_args, Bits, Multiset};
 
 use simple_sds::bit_vector::BitVector;
-use simple_sds::ops::{BitVec, PredSucc, Rank, Select, SelectZero};
+use simple_sds::ops::{PredSucc, Rank, Select, SelectZero};
 use simple_sds::raw_vector::{AccessRaw, RawVector};
 use simple_sds::rl_vector::{RLBuilder, RLVector};
 use simple_sds::serialize::Serialize;
